@@ -27,7 +27,8 @@ RULE = ("One case = one data array with a history: element type (8 integer types
         "(bitwise for numerics with NaN payloads ignored and the sign of zero checked, exact str equality for text) "
         "through da[:], da[...], np.asarray(da) and read_direct; all compression triples compare against the same "
         "model; an explicit array-level No / DeflateNormal must show up as h5py compression None / 'gzip'. A grid "
-        "enumerates element type x creation path x all 27 compression triples on two fixed histories. "
+        "enumerates element type x creation path x all 27 compression triples on one (quick) / two (thorough) fixed "
+        "histories. "
         "Non-trivial: >= 1 mutating step after creation or a reopen step, and at least one of zero-length axis, "
         "special values, non-default compression, rank >= 3, text; distinct by (element type, shape, step signature, "
         "compression).")
@@ -874,17 +875,19 @@ def case_strategy(draw):
         other = int(np.prod(shape))
         shape[la] = min(draw(st.one_of(st.sampled_from(LONG_EXT), st.integers(0, 20000))), _cap(dt) // other)
     how = draw(st.sampled_from(["data", "data", "wd", "set"]))
+    if how != "data" and draw(st.integers(0, 7)) == 0:
+        dt = "float64"                      # the documented default element type: shape given, dtype omitted
     create = {"how": how, "fill": draw(st.sampled_from(FILLS)), "seed": draw(SEEDS),
               "pre": draw(st.integers(0, 5)) == 0}
     if how == "data":
         create["dtarg"] = draw(st.sampled_from(["none", "none", "np", "nix"]))
         create["lay"] = draw(_lays(dt, True))
     else:
-        create["dtarg"] = draw(st.sampled_from(["default", "default", "np", "nix"] if dt == "float64" else ["np", "nix"]))
+        create["dtarg"] = draw(st.sampled_from(["default", "default", "default", "np", "nix"] if dt == "float64" else ["np", "nix"]))
         if how == "set":
             create["lay"] = draw(_lays(dt, False))
     compr = "".join(draw(st.sampled_from(COMPR)) for _ in range(3))
-    nsteps = draw(st.sampled_from([0, 1, 2, 2, 3, 3, 4, 4, 5, 6]))
+    nsteps = draw(st.sampled_from([3, 2, 4, 1, 5, 2, 3, 6, 4, 0]))
     steps = []
     cur = list(shape)
     for _ in range(nsteps):
